@@ -82,3 +82,5 @@ pub proof fn lemma_vote_ptrs_step(s: Seq<(Voter, VoterVotes)>, i: int, tag: Rede
     requires 0 <= i < s.len()
     ensures vote_ptrs(s.take(i + 1), tag) == (match s[i].1.script_witness { Some(ScriptWitnessType::PlutusScriptWitness(w)) => vote_ptrs(s.take(i), tag).push(with_ptr(w, i as nat, tag)), _ => vote_ptrs(s.take(i), tag) })
 { assert(s.take(i + 1).drop_last() =~= s.take(i)); }
+
+pub open spec fn script_mint_entries(m: ScriptMint) -> Seq<(AssetName, Int)> { match m { ScriptMint::Native(n) => n.mints.entries@, ScriptMint::Plutus(p) => p.mints.entries@ } }
